@@ -6,7 +6,7 @@ HOOK_COMMITS = subprocess.run(["git","-C","/repo","log","--reverse","--format=%h
 CHECKS = {
  "C02": dict(level="fault_enumeration", engine="core_checks", design="§3, §4/C02-C03",
    technique="bounded-exhaustive query histories x exhaustive crash-point enumeration (every prefix of the file-system calls of the last step) on the real database, reopened with the real open path",
-   text="Every history of <=1 (quick) / <=2 (thorough) steps over the 37-step alphabet H plus close/optimize_storage/shrink_to_fit as last step, from 5 base states (incl. an alias table one insert away from rehashing and a graph with reused ids), is run on DbFile (thorough: also Db); every prefix of the file-system calls the last step makes (thorough: plus 3 byte-prefixes of the interrupted write) is turned into a (data, recovery log) image; each distinct image is reopened with DbFile and Db (thorough: also DbAny file/mapped) and fully dumped: open and every read must succeed, no panic, no single allocation >= 256 MiB.",
+   text="Every history of <=1 (quick) / <=2 (thorough) steps over the 37-step alphabet H plus close/optimize_storage/shrink_to_fit as last step, from 6 base states (incl. an alias table one insert away from rehashing and a graph with reused ids), is run on DbFile (thorough: also Db); every prefix of the file-system calls the last step makes (thorough: plus 3 byte-prefixes of the interrupted write) is turned into a (data, recovery log) image; each distinct image is reopened with DbFile and Db (thorough: also DbAny file/mapped) and fully dumped: open and every read must succeed, no panic, no single allocation >= 256 MiB.",
    note="Crash model: prefix of the process's file-system calls (process death; the code never syncs). A refused allocation >= 16 GiB aborts the harness (reported as machinery failure, exit 2)."),
  "C03": dict(level="fault_enumeration", engine="core_checks", design="§3, §4/C02-C03",
    technique="bounded-exhaustive query histories x exhaustive crash-point enumeration on the real database, differential oracle against the implementation's own before/after dumps",
@@ -22,7 +22,7 @@ CHECKS = {
    note="Interleavings inside one system call are not explored; there is no shared mutable memory on this path (safe Rust), the shared state is the kernel file cursor. The evidence reports how many reads found the shared handle busy (contention really explored)."),
  "C32": dict(level="fault_enumeration", engine="core_checks", design="§3, §4/C32",
    technique="bounded-exhaustive query histories x exhaustive single-fault injection at every storage write/resize call of the last step (public StorageData wrapper around the real FileStorage), follow-up step, close and reopen",
-   text="Every history of <=1 (quick) / <=2 (thorough) steps over H from 5 base states runs on DbImpl<Faulty(FileStorage)>; for the last step each of its storage write/resize calls (up to ~750 per step) fails once without being performed; the query must return Err, the canonical dump must be unchanged, each follow-up step (1 quick / 6 thorough) must behave exactly as on a never-faulted database, and after close + reopen the follow-up's effect must be present. Every step runs under a probe budget so hangs are reported.",
+   text="Every history of <=1 (quick) / <=2 (thorough) steps over H from 6 base states runs on DbImpl<Faulty(FileStorage)>; for the last step each of its storage write/resize calls (up to ~750 per step) fails once without being performed; the query must return Err, the canonical dump must be unchanged, each follow-up step (1 quick / 6 thorough) must behave exactly as on a never-faulted database, and after close + reopen the follow-up's effect must be present. Every step runs under a probe budget so hangs are reported.",
    note="Fault model: the n-th write/resize returns Err with no side effect; reads, flush and rename never fail. The current tree violates this property by design (no recovery after a failed storage call): listed as open findings, one per failed oracle clause."),
  "C04": dict(level="model_checking", engine="core_checks", design="§4/C04",
    technique="explicit-state breadth-first search with exact state deduplication over the real Storage<MemoryStorage> + bounded-exhaustive lock-step operation sequences on all three back-ends, against a reference model",
@@ -30,11 +30,11 @@ CHECKS = {
    note="Written bytes are a function of (state, operation) so equal states have equal futures. Values and sizes outside the alphabet are not covered. 128-bit state hashes (collision would merge states)."),
  "C05": dict(level="model_checking", engine="core_checks", design="§4/C05",
    technique="bounded-exhaustive query histories x every maintenance operation (and pairs) on the real database, differential oracle (full ordered dump before vs after, plus one further step)",
-   text="At every node of the history tree (all histories of <=1 (quick) / <=2 (thorough) steps over the 37-step alphabet H from 5 base states, incl. a state one insert away from rehashing the alias table) each of 9 maintenance operations (reopen same variant, reopen other file variant, optimize_storage, shrink_to_fit, backup+open, backup+open as DbMemory, copy, rename, rename+reopen) and in thorough every ordered pair is applied on DbFile, Db, DbMemory and DbAny(mapped); the full ordered observable dump (elements in id-slot order, values, keys, counts, edge counts, aliases, indexes, index searches, 4 traversals per node) must be unchanged and must still equal the never-maintained database after each of 7 further mutating steps.",
+   text="At every node of the history tree (all histories of <=1 (quick) / <=2 (thorough) steps over the 37-step alphabet H from 6 base states, incl. a state one insert away from rehashing the alias table) each of 9 maintenance operations (reopen same variant, reopen other file variant, optimize_storage, shrink_to_fit, backup+open, backup+open as DbMemory, copy, rename, rename+reopen) and in thorough every ordered pair is applied on DbFile, Db, DbMemory and DbAny(mapped); the full ordered observable dump (elements in id-slot order, values, keys, counts, edge counts, aliases, indexes, index searches, 4 traversals per node) must be unchanged and must still equal the never-maintained database after each of 7 further mutating steps.",
    note="Differential oracle: trusts the dump queries to expose state. Values/keys outside the alphabet and longer histories are not covered."),
  "C06": dict(level="model_checking", engine="core_checks", design="§4/C06",
    technique="bounded-exhaustive query histories executed in lock-step on all six database variants of the real code, differential oracle",
-   text="Every history of <=2 (quick) / <=3 (thorough) steps over the 37-step alphabet H (inserts/updates/removals of nodes, edges, values, aliases, indexes; committing and aborted transactions; a query failing midway) from 5 base states is executed in lock-step on DbMemory, DbFile, Db and DbAny x {memory,file,mapped}; every step result (Ok payload or error text) and, at the end of every history, the full observable dump must be identical.",
+   text="Every history of <=2 (quick) / <=3 (thorough) steps over the 37-step alphabet H (inserts/updates/removals of nodes, edges, values, aliases, indexes; committing and aborted transactions; a query failing midway) from 6 base states is executed in lock-step on DbMemory, DbFile, Db and DbAny x {memory,file,mapped}; every step result (Ok payload or error text) and, at the end of every history, the full observable dump must be identical.",
    note="Variant-independent defects are invisible to this differential oracle (they are the business of C08-C18). Values/keys outside the alphabet are not covered."),
  "C07": dict(level="fault_enumeration", engine="serde_checks", design="§4/C07, harness/serde_checks/NOTES.md",
    technique="exhaustive damage enumeration of seed database files (every truncation, every bit flip, every aligned 8-byte field x boundary values, crafted record headers, damaged/garbage recovery logs, all tiny files), each opened and fully read by the real code in supervised worker processes",
@@ -94,7 +94,7 @@ CHECKS = {
    note="as C08"),
  "C13": dict(level="model_checking", engine="core_checks", design="§4/C13",
    technique="bounded-exhaustive enumeration of aborted transaction bodies and partially failing queries from all states of a bounded history tree, on the real database",
-   text="From every state reached by <=1 (quick) / <=2 (thorough) steps of H from 5 base states: every transaction body of 1-2 queries over a 16-query body alphabet and every 3-query body over its 9-query core (value replacement, alias re-assignment and stealing, node removal with edges, index create/remove ...) whose closure then returns Err, and each of 10 single queries that fail after partial work. The order-insensitive canonical dump (elements, endpoints, property sets, aliases, index contents, node count) must be unchanged; every step runs under a hash-probe budget so a rollback that loops forever is reported, not waited for.",
+   text="From every state reached by <=1 (quick) / <=2 (thorough) steps of H from 6 base states: every transaction body of 1-2 queries over a 16-query body alphabet and every 3-query body over its 9-query core (value replacement, alias re-assignment and stealing, node removal with edges, index create/remove ...) whose closure then returns Err, and each of 10 single queries that fail after partial work. The order-insensitive canonical dump (elements, endpoints, property sets, aliases, index contents, node count) must be unchanged; every step runs under a hash-probe budget so a rollback that loops forever is reported, not waited for.",
    note="In-memory variant copies of the start state are made with DbImpl::copy (itself checked by C05); thorough adds DbFile with replay from scratch."),
  "C01": dict(level="fault_enumeration", engine="core_checks", design="§3, §4/C01",
    technique="bounded-exhaustive operation sequences x exhaustive crash-point / torn-write / crash-in-recovery enumeration on the real FileStorage (stateless exploration with fault injector)",
